@@ -13,11 +13,17 @@ pub struct Failure {
 	/// Stable identifier of the failing shape (used for known-finding matching).
 	pub sig: String,
 	pub detail: String,
+	/// A more specific case to store in the replay file (e.g. the exact stop point).
+	pub case_override: Option<serde_json::Value>,
 }
 
 impl Failure {
 	pub fn new(sig: impl Into<String>, detail: impl Into<String>) -> Failure {
-		Failure { sig: sig.into(), detail: detail.into() }
+		Failure { sig: sig.into(), detail: detail.into(), case_override: None }
+	}
+	pub fn with_case<T: serde::Serialize>(mut self, case: &T) -> Failure {
+		self.case_override = serde_json::to_value(case).ok();
+		self
 	}
 }
 
@@ -104,6 +110,8 @@ pub struct Interp {
 	/// set when a transaction containing a tree dereference has been accepted while a reader
 	/// lock was held
 	pub locked: Option<LockedTree>,
+	/// per log file: number of bytes covered by the last successful sync (crash images)
+	pub sync_track: Option<crate::image::SyncTrack>,
 }
 
 pub struct LockedTree {
@@ -148,6 +156,7 @@ impl Interp {
 			background: false,
 			reads: 0,
 			locked: None,
+			sync_track: None,
 		}
 	}
 
@@ -235,6 +244,10 @@ impl Interp {
 			self.stage_cleaned();
 		}
 		Ok(())
+	}
+
+	pub fn ensure_room_for_close(&mut self) -> Res<()> {
+		self.ensure_cleanup_room(3)
 	}
 
 	fn stage_cleaned(&mut self) {
@@ -558,15 +571,15 @@ impl Interp {
 				}
 				self.ensure_cleanup_room(3)?;
 				self.close();
+				if let StepOut::Faulted(s) = self.open()? {
+					return Ok(StepOut::Faulted(s))
+				}
 				self.stages = Stages {
 					cleaned: self.committed,
 					synced: self.committed,
 					logged: self.committed,
 					..Default::default()
 				};
-				if let StepOut::Faulted(s) = self.open()? {
-					return Ok(StepOut::Faulted(s))
-				}
 				self.labels.insert("reopen");
 			},
 			Op::Iter(col, iop) => {
@@ -576,6 +589,9 @@ impl Interp {
 			Op::LockTree(..) | Op::UnlockTree => {
 				// handled by the C11 driver
 			},
+		}
+		if let Some(t) = self.sync_track.as_mut() {
+			t.after_op(&self.dir, matches!(op, Op::F | Op::Reopen));
 		}
 		self.after_op()?;
 		Ok(StepOut::Done)
